@@ -13,6 +13,9 @@ Oracles that need no model (the failing-input search):
   * history    — a fresh interpreter put into the same module gives the same program (no stale state);
   * module     — the parse-time module changes only through `.module(...)`;
   * eval       — evaluating the re-parsed program gives what the first gives (safe programs only);
+  * literal-mutated / reevaluation — every verb with a LITERAL operand (directly and inside a function), evaluated
+                    twice with different other operands on numpy and torch: the parsed program is unchanged and the
+                    second evaluation equals a fresh interpreter's;
   * call-history — the text and its blank-space siblings through __call__ (parse cache) on long-lived
                     interpreters, in both orders: the program each call would run is the parse of that very text;
   * address-reuse — the text rebuilt as a transient string on the memory block of a prefix parsed and dropped
@@ -118,6 +121,7 @@ class _W:
     n = 0
     switches = 0
     stubs = [None, None]    # long-lived stubbed interpreters of the call-history oracle
+    purity = {}             # backend -> [interpreter, reference interpreter, uses]
 
 
 class Budget(BaseException):
@@ -236,6 +240,8 @@ def fulldump(x):
         return f"{type(x).__name__}/{x.arity}({a};{fulldump(x.args)})"
     if isinstance(x, np.generic):
         return "np:" + repr(x.item())
+    if hasattr(x, "detach") and hasattr(x, "tolist"):      # torch tensor
+        return "tensor:" + str(x.dtype) + ":" + fulldump(x.detach().cpu().tolist())
     return "?" + type(x).__name__
 
 
@@ -482,6 +488,13 @@ def model_many(cases):
     drv = _W.drv
     out = []
     CH = 32
+    real_idx = [i for i, c in enumerate(cases) if c[1] != PURITY]
+    if len(real_idx) != len(cases):
+        sub = model_many([cases[i] for i in real_idx])
+        full = [None] * len(cases)
+        for i, r in zip(real_idx, sub):
+            full[i] = r
+        return full
     for i in range(0, len(cases), CH):
         chunk = [model_line(t, p) for t, p, _ in cases[i:i + CH]]
         big = sum(len(c) for c in chunk) > 20000
@@ -498,8 +511,105 @@ def model_many(cases):
     return out
 
 
+PURITY = "@purity"      # pseudo-module marking a literal-purity scenario (text = JSON)
+
+
 def run_case(text, premod, want_eval, mrep=None):
+    if premod == PURITY:
+        return purity_case(text)
     return run_case0(text, premod, want_eval, mrep)
+
+
+def _value_text(v, depth=0):
+    if hasattr(v, "detach") and hasattr(v, "tolist"):
+        return "t" + canon_value(v.detach().cpu().tolist())
+    return canon_value(v)
+
+
+def _run_program(k, stmts):
+    tag, val, _ = guarded(lambda: [k.call(y) for y in stmts], EVAL_CAP)
+    if tag == "ok":
+        try:
+            return ("ok", [_value_text(v) for v in val])
+        except Exception as e:  # noqa
+            return ("ok", "undumpable:" + type(e).__name__)
+    if tag == "err":
+        return ("err", type(val).__name__)
+    return ("skip", "")
+
+
+def purity_case(text):
+    """Evaluating a parsed program must not change it: `setup1; P = prog(program); evaluate P; setup2; evaluate P
+    again` on one interpreter -- the program's structure (literals included) is the same before and after, equals a
+    fresh parse, and the second evaluation gives what a fresh interpreter (setup1; setup2; fresh parse) gives."""
+    scn = json.loads(text)
+    out = dict(text=text, premod=PURITY, problems=[], mism=None, real="purity")
+    try:
+        from klongpy import KlongInterpreter
+        pair = _W.purity.get(scn["backend"])
+        if pair is None or pair[2] >= 400:
+            try:        # two interpreters per backend, reused: every scenario re-assigns `a` and parses its own program
+                pair = _W.purity[scn["backend"]] = [KlongInterpreter(backend=scn["backend"]),
+                                                    KlongInterpreter(backend=scn["backend"]), 0]
+            except Exception as e:  # backend not available
+                out["real"] = "purity:no-backend"
+                return out
+        pair[2] += 1
+        k, f = pair[0], pair[1]
+        k(scn["setup1"])
+        _, prog = k.prog(scn["program"])
+        d0 = fulldump(prog)
+        v1 = _run_program(k, prog)
+        k(scn["setup2"])
+        v2 = _run_program(k, prog)
+        d1 = fulldump(prog)
+        f(scn["setup1"])
+        f(scn["setup2"])
+        _, pf = f.prog(scn["program"])
+        df = fulldump(pf)
+        vf = _run_program(f, pf)
+        out["real"] = "purity:" + v2[0]
+        if d0 != d1 or d0 != df:
+            out["problems"].append(("literal-mutated", f"program {scn['program']!r} ({scn['backend']}): parsed {d0}; after two "
+                                    f"evaluations {d1}; fresh parse {df}"[:800]))
+        elif "skip" not in (v2[0], vf[0]) and v2 != vf:
+            out["problems"].append(("reevaluation", f"program {scn['program']!r} ({scn['backend']}) after {scn['setup1']!r}, one evaluation, "
+                                    f"{scn['setup2']!r}: {v2} but a fresh interpreter gives {vf}"[:800]))
+    except RecursionError:
+        out["real"] = "purity:deep"
+    except Exception as e:  # noqa: the scenario itself does not parse / set up: not this oracle's business
+        out["real"] = "purity:setup-" + type(e).__name__
+    return out
+
+
+PURITY_LITS = ["[1 2 3]", "[1.5 2.5 3.5]", "[-1 2]", "[2 -1]", "[[1 2] [3 4]]", "[5 5 5]", "[0 1]", "[3 1 2]", '"abc"', "[1 [2 3]]"]
+PURITY_ARGS = [("7,0", "8,1"), ("!6", "!8"), ("[1 2 3]", "[4 5 6 7]"), ("2", "0"), ("[9 0]", "[8 1]"), ('"xy"', '"z"'),
+               ("[[1 2] [3 4]]", "[[5 6 7] [8 9 10]]"), ("1.5", "[2.5 3.5]")]
+PURITY_DYADS = ["!", "#", "$", "%", "&", "*", "+", ",", "-", ":#", ":$", ":%", ":+", ":-", ":=", ":>", ":@", ":^", ":_",
+                "<", "=", ">", "?", "@", "^", "_", "|", "~"]
+PURITY_MONADS = ["!", "#", "$", "%", "&", "*", "+", ",", "-", ":#", ":_", "<", "=", ">", "?", "@", "^", "_", "|", "~"]
+
+
+def purity_scenarios():
+    """every dyad with a LITERAL on either side (directly and inside a function), every monad and a few adverbs
+    on a literal, evaluated twice with different other operands; numpy and torch"""
+    progs = []
+    for lit in PURITY_LITS:
+        for d in PURITY_DYADS:
+            progs += [f"{lit}{d}a", f"a{d}{lit}", f"{{{lit}{d}x}}(a)", f"{{x{d}{lit}}}(a)"]
+        for m in PURITY_MONADS:
+            progs += [f"{m}{lit}", f"{{{m}{lit}}}()", f"a,{m}{lit}"]
+        progs += [f"+/{lit}", f"{lit}+'a", f"a,'{lit}", f"{{x,y}}/{lit}", f"{lit}:=a", f"{lit}:-a", f"{lit}:^a", f"a:^{lit}",
+                  f"h::{{{lit}:=x,y}};h(a@0;0)", f"t::{lit};t:=a;t"]
+    out = []
+    for bi, backend in enumerate(("numpy", "torch")):
+        for pi, pr in enumerate(progs):
+            a1, a2 = PURITY_ARGS[(pi + bi) % len(PURITY_ARGS)]
+            out.append(json.dumps(dict(backend=backend, setup1=f"a::{a1}", program=pr, setup2=f"a::{a2}")))
+            if pi % 3 == 0:
+                a1, a2 = PURITY_ARGS[(pi // 3 + 1) % len(PURITY_ARGS)]
+                out.append(json.dumps(dict(backend=backend, setup1=f"a::{a1}", program=pr, setup2=f"a::{a2}")))
+    return out
 
 
 def run_case0(text, premod, want_eval, mrep=None):
@@ -669,6 +779,15 @@ def _worker_init(use_driver):
         resource.setrlimit(resource.RLIMIT_AS, (6 << 30, 6 << 30))
     except Exception:
         pass
+    # 16 workers x a full torch thread pool each makes every tensor operation crawl: one thread per worker.
+    # Set through the environment so that only a worker that really gets torch scenarios pays for importing it.
+    for var in ("OMP_NUM_THREADS", "MKL_NUM_THREADS", "OPENBLAS_NUM_THREADS"):
+        os.environ[var] = "1"
+    if "torch" in sys.modules:
+        try:
+            sys.modules["torch"].set_num_threads(1)
+        except Exception:
+            pass
     from klongpy import KlongInterpreter
     _W.KI = KlongInterpreter
     _W.klong = KlongInterpreter()
@@ -698,6 +817,16 @@ def _worker_main(conn, use_driver):
             conn.send(("hb", bid, -1, 0))
             mreps = model_many(batch) if _W.drv is not None else [None] * len(batch)
             for k, ((text, premod, want_eval), mrep) in enumerate(zip(batch, mreps)):
+                if premod == PURITY and '"backend": "torch"' in text and "torch" not in sys.modules:
+                    # first use of that backend in this process: importing it costs seconds of CPU (much more of
+                    # wall clock on a loaded machine) and is no property of the text, so it is done under the
+                    # limit of the batch's model calls (an overrun there is an infrastructure error, never a hang)
+                    conn.send(("hb", bid, -1, 0))
+                    try:
+                        from klongpy import KlongInterpreter
+                        KlongInterpreter(backend="torch")("1+1")
+                    except Exception:  # noqa: backend not available: purity_case reports that
+                        pass
                 conn.send(("hb", bid, k, _steps_of(mrep)))
                 o = run_case(text, premod, want_eval, mrep)
                 key = "real:" + o["real"]
@@ -1134,6 +1263,8 @@ def _cases(ctx):
     for s in unterminated_strings():
         if fresh(s, None):
             yield ("unterminated", s, None, False)
+    for s in purity_scenarios():
+        yield ("purity", s, PURITY, False)
     for s in sibling_seeds():
         if fresh(s, None):
             yield ("sibling", s, None, 2)       # 2 = evaluate-safe check off, call-history check forced
@@ -1201,6 +1332,8 @@ def _report(ctx, group, a):
             "module-object-address": "two parses differ only in a memory address inside a module-qualified symbol name",
             "setup": "setting the module through .module(...) failed",
             "slow": "the parse takes seconds of wall clock although the call count is small",
+            "literal-mutated": "evaluating a parsed program changed a literal stored in it: the program is no longer the parse of its text",
+            "reevaluation": "the second evaluation of the same parsed program differs from what a fresh interpreter computes",
             "call-history": "after a text differing only in blank space was evaluated, __call__ runs another program for this text than the text parses to",
             "address-reuse": "the same text as a new string object (on the address of a text parsed and dropped before) parses differently",
         }.get(key, key)
@@ -1260,7 +1393,7 @@ def run(ctx):
             total[0] += 1
             ctx.bump("group:" + g.split(":")[0])
             cur.append((g, t, p, e))
-            wgt += (len(t) + 1) ** 2
+            wgt += 0 if p == PURITY else (len(t) + 1) ** 2
             if len(cur) >= bsz or wgt > 3_000_000:
                 yield cur
                 cur, wgt = [], 0
@@ -1276,9 +1409,12 @@ def run(ctx):
             if c[0] == "@bulk":
                 break
             small.append(c)
+        # torch warms up for seconds of CPU in every process that touches it: its scenarios go to two workers only
+        torchy = [c for c in small if c[2] == PURITY and '"backend": "torch"' in c[1]]
+        small = [c for c in small if not (c[2] == PURITY and '"backend": "torch"' in c[1])]
         small.sort(key=lambda c: (len(c[1]), c[1], c[2] or ""))
         bid = 0
-        for part, bsz in ((small, 100), (gen, 2000)):
+        for part, bsz in ((torchy, (len(torchy) + 1) // 2 or 1), (small, 100), (gen, 2000)):
             for cur in chunks(part, bsz):
                 groups[bid] = {(t, p): g for g, t, p, e in cur}
                 yield bid, [(t, p, e) for g, t, p, e in cur]
